@@ -164,5 +164,14 @@ CHECKS["C15"] = {
     "quick": {"checks": 3000, "timeout": 600, "vmem_kb": 0},
     "thorough": {"checks": 60000, "timeout": 3000, "vmem_kb": 0, "shards": 8},
 }
+CHECKS["C13"] = {
+    "pkg": "./props/c13", "engine": "strace-fault-injection",
+    "level": "fault_enumeration",
+    "technique": "generated crash points: SIGKILL injected with strace at the k-th file-system call of the real relic binary, rapid-drawn (quick) or enumerated over every candidate boundary of a reference trace (thorough)",
+    "level_text": "The relic binary built from the tree signs with the file token to a path other than the input under strace -f with a SIGKILL injected on entry to the k-th openat / write / pwrite64 / copy_file_range / fchmod / ftruncate / close / unlinkat / renameat, for 8 scenarios covering the output strategies (patch-by-rewrite for PE, JAR, PowerShell; copy-then-edit for MSI; whole-file write for PGP detached, catalog, manifest; PGP clearsign merge) x destination absent / pre-existing. Candidate k values come from an uninjected reference trace (every per-thread call index from the creation of the temporary file onwards, plus one); the boundary actually hit is read from the injected run's own trace. After each run: input unchanged; a pre-existing destination still exists; the destination is byte-identical to its previous content or a complete artefact (relic verify, independent well-formedness, PE checksum); no temporary siblings after normal completion; a missing destination directory is a handled error that leaves nothing behind. Quick draws 60 injected runs, thorough runs every candidate.",
+    "level_note": "strace counts per thread and Go moves goroutines between threads, so a given (call, k) may hit different boundaries on different runs; coverage is reported as distinct boundaries hit, not assumed. Process death only: unsynced data after power loss is not modelled. The PE checksum fix-up window is a listed finding.",
+    "quick": {"checks": 120, "timeout": 1500, "env": {"VERIF_C13_RUNS": 60}},
+    "thorough": {"checks": 1, "timeout": 3400, "env": {"VERIF_C13_ROUNDS": 8}},
+}
 for _pid in CHECKS:
     NOT_APPLICABLE.pop(_pid, None)
